@@ -73,8 +73,19 @@ theorem monthShapeNthDay_eq (s : MonthShape) (n : Int) : monthShapeNthDay s n = 
   cases i <;> simp only [monthShapeNthDay, Chk.nthDay, pure, bind, Option.bind] <;>
     (repeat' split) <;> first | rfl | simp_all
 
-theorem monthShapeGap_eq (s : MonthShape) : monthShapeGap s = Chk.gap s.inner := by
-  rcases s with ⟨c, y, m, i⟩; cases i <;> rfl
+/-- `MonthShape::gap` returns a `RangeInclusive`; the hand-written model gives its two ends -/
+theorem monthShapeGap_eq (s : MonthShape) :
+    monthShapeGap s = (Chk.gap s.inner).map (Option.map fun p => RangeIncl.new p.1 p.2) := by
+  rcases s with ⟨c, y, m, i⟩
+  cases i with
+  | normal a => rfl
+  | headless a b =>
+    simp only [monthShapeGap, Chk.gap, bind, Option.bind, pure]
+    cases Chk.u32 (a - 1) <;> rfl
+  | tailless a b =>
+    simp only [monthShapeGap, Chk.gap, bind, Option.bind, pure]
+    cases Chk.u32 (a + 1) <;> rfl
+  | gapped a b c => rfl
 
 theorem monthShapeDayOrdinalErr_eq (s : MonthShape) (d : Int) :
     monthShapeDayOrdinalErr s d = Chk.dayOrdinalErr s.inner s.year s.month d := by
@@ -490,5 +501,122 @@ theorem calendarReforming_eq (r : Int) : calendarReforming r = Chk.mkReforming r
               · rfl
               · cases kd <;> simp <;> (repeat' split) <;> simp_all
   · simp [hi]
+
+/-! ### iter.rs -/
+
+theorem daysNew_eq (s : MonthShape) :
+    daysNew s = (Chk.len s.inner).map fun l => (⟨s, RangeIncl.new 1 l⟩ : Days) := by
+  simp only [daysNew, monthShapeLen_eq, bind, Option.bind, pure]
+  cases Chk.len s.inner <;> rfl
+
+theorem monthShapeDays_eq (s : MonthShape) :
+    monthShapeDays s = (Chk.len s.inner).map fun l => (⟨s, RangeIncl.new 1 l⟩ : Days) := by
+  simp only [monthShapeDays, daysNew_eq, bind, Option.bind, pure]
+  try (cases Chk.len s.inner <;> rfl)
+
+theorem daysNext_eq (it : Days) :
+    daysNext it = (match it.inner.next with
+      | (none, r) => some (none, { it with inner := r })
+      | (some n, r) => (Chk.nthDay it.shape.inner n).map fun d => (d, { it with inner := r })) := by
+  simp only [daysNext, monthShapeNthDay_eq, bind, Option.bind, pure]
+  rcases h : it.inner.next with ⟨_ | n, r⟩
+  · rfl
+  · simp only []; cases Chk.nthDay it.shape.inner n <;> rfl
+
+theorem daysNextBack_eq (it : Days) :
+    daysNextBack it = (match it.inner.nextBack with
+      | (none, r) => some (none, { it with inner := r })
+      | (some n, r) => (Chk.nthDay it.shape.inner n).map fun d => (d, { it with inner := r })) := by
+  simp only [daysNextBack, monthShapeNthDay_eq, bind, Option.bind, pure]
+  rcases h : it.inner.nextBack with ⟨_ | n, r⟩
+  · rfl
+  · simp only []; cases Chk.nthDay it.shape.inner n <;> rfl
+
+theorem datesNext_eq (it : Dates) (hg : GapOrdered it.shape.calendar) :
+    datesNext it = (match it.inner.next with
+      | (none, r) => some (none, { it with inner := r })
+      | (some n, r) => (Chk.nthDate it.shape n).map fun d => (d, { it with inner := r })) := by
+  simp only [datesNext, monthShapeNthDate_eq _ hg, bind, Option.bind, pure]
+  rcases h : it.inner.next with ⟨_ | n, r⟩
+  · rfl
+  · simp only []; cases Chk.nthDate it.shape n <;> rfl
+
+theorem datesNextBack_eq (it : Dates) (hg : GapOrdered it.shape.calendar) :
+    datesNextBack it = (match it.inner.nextBack with
+      | (none, r) => some (none, { it with inner := r })
+      | (some n, r) => (Chk.nthDate it.shape n).map fun d => (d, { it with inner := r })) := by
+  simp only [datesNextBack, monthShapeNthDate_eq _ hg, bind, Option.bind, pure]
+  rcases h : it.inner.nextBack with ⟨_ | n, r⟩
+  · rfl
+  · simp only []; cases Chk.nthDate it.shape n <;> rfl
+
+theorem sizeHints_eq (a : Days) (b : Dates) (r : RangeIncl) :
+    daysSizeHint a = (a.len, some a.len) ∧ datesSizeHint b = (b.len, some b.len)
+    ∧ monthIterSizeHint r = ((⟨r⟩ : MonthIter).len, some (⟨r⟩ : MonthIter).len) := ⟨rfl, rfl, rfl⟩
+
+theorem laterNext_eq (st : Option Date) (hg : ∀ d, st = some d → GapOrdered d.calendar) :
+    laterNext st = (match st with
+      | some d => (Chk.succ d).map fun r => (r, r)
+      | none => some (none, none)) := by
+  cases st with
+  | none => rfl
+  | some d =>
+    simp only [laterNext, dateSucc_eq d (hg d rfl), bind, Option.bind, pure]
+    cases Chk.succ d <;> rfl
+
+theorem earlierNext_eq (st : Option Date) (hg : ∀ d, st = some d → GapOrdered d.calendar) :
+    earlierNext st = (match st with
+      | some d => (Chk.pred d).map fun r => (r, r)
+      | none => some (none, none)) := by
+  cases st with
+  | none => rfl
+  | some d =>
+    simp only [earlierNext, datePred_eq d (hg d rfl), bind, Option.bind, pure]
+    cases Chk.pred d <;> rfl
+
+theorem andLaterNext_eq (st : Option Date) (hg : ∀ d, st = some d → GapOrdered d.calendar) :
+    andLaterNext st = (match st with
+      | some d => (Chk.succ d).map fun r => (some d, r)
+      | none => some (none, none)) := by
+  cases st with
+  | none => rfl
+  | some d =>
+    simp only [andLaterNext, dateSucc_eq d (hg d rfl), bind, Option.bind, pure]
+    cases Chk.succ d <;> rfl
+
+theorem andEarlierNext_eq (st : Option Date) (hg : ∀ d, st = some d → GapOrdered d.calendar) :
+    andEarlierNext st = (match st with
+      | some d => (Chk.pred d).map fun r => (some d, r)
+      | none => some (none, none)) := by
+  cases st with
+  | none => rfl
+  | some d =>
+    simp only [andEarlierNext, datePred_eq d (hg d rfl), bind, Option.bind, pure]
+    cases Chk.pred d <;> rfl
+
+theorem iterNew_eq (d : Date) :
+    laterNew d = some d ∧ earlierNew d = some d ∧ andLaterNew d = some d ∧ andEarlierNew d = some d
+    ∧ dateLater d = some d ∧ dateEarlier d = some d ∧ dateAndLater d = some d ∧ dateAndEarlier d = some d
+    ∧ monthIterNew = MonthIter.new.inner := ⟨rfl, rfl, rfl, rfl, rfl, rfl, rfl, rfl, rfl⟩
+
+/-- `MonthIter::next`: the generated function faults exactly where the model's inner option is
+`none` (the `.expect`), which C17 proves unreachable -/
+theorem monthIterNext_eq (r : RangeIncl) :
+    monthIterNext r = (match r.next with
+      | (none, r') => some (none, r')
+      | (some n, r') => (Month.ofInt? n).map fun m => (some m, r')) := by
+  simp only [monthIterNext, bind, Option.bind, pure]
+  rcases h : r.next with ⟨_ | n, r'⟩
+  · rfl
+  · simp only []; cases Month.ofInt? n <;> rfl
+
+theorem monthIterNextBack_eq (r : RangeIncl) :
+    monthIterNextBack r = (match r.nextBack with
+      | (none, r') => some (none, r')
+      | (some n, r') => (Month.ofInt? n).map fun m => (some m, r')) := by
+  simp only [monthIterNextBack, bind, Option.bind, pure]
+  rcases h : r.nextBack with ⟨_ | n, r'⟩
+  · rfl
+  · simp only []; cases Month.ofInt? n <;> rfl
 
 end JV.Gen
